@@ -101,6 +101,14 @@ CHECKS = {
         "outside": "the proposal query (the handlers share the ImmutableLedgerAt path); stakes/voting_power (reads current parameters, not in the statement); vm_call; 'serving queries never alters what is committed' is decided by the C06 twin (Query injection)",
         "assumptions": A_COMMON + A_STORE + ["A-SIG", "A-HASH", "A-GOV", "query answers are compared after decoding them with the same JSON codec"],
     },
+    "C07": {
+        "quick": [
+            {"name": NODE + "ZZ_C07_R1", "reach": ["R1 end"], "bound": "genesis with validators A0,A1 and 3 funded accounts, Test1 governance parameters with symbolic signing window and minimum in [1,3]; blocks 1-2 empty; block 3 with votes (A0 signs, A1 signs or not) and one transaction from {none, delegation A2->A0/A1 of symbolic power, transfer of symbolic amount, A1 unbonds its genesis stake}; restart on a copy of the data directory after block 3; blocks 4 (one transaction of the same menu) and 5 on both replicas", "validate": 8},
+        ],
+        "bounds": "restart after h = 3, two blocks after the restart",
+        "outside": "restart points other than after block 3; histories with governance changes or contract state before the restart; more than 2 validators",
+        "assumptions": A_COMMON + A_STORE + ["A-SIG", "A-HASH", "A-GOV", "A-EVM (BeginBlock/Commit only)", "restart = new application object built by the real constructors + Info on a copy of the data directory (the application's Stop() leaves stores open)"],
+    },
     "C09": {
         "quick": [
             {"name": NODE + "ZZ_C09_P1small", "reach": ["P1 end"], "bound": "one hostile transaction (garbage bytes | empty | TrxProto with type 0..9, sender in {known, unknown, 19 bytes}, receiver in {known, 21 bytes, zero}, payload in {absent, garbage, boundary-valued message}, symbolic amount/gas/nonce/time/price, signature in {garbage, genuine}) to DeliverTx or CheckTx; then a well-formed transfer, EndBlock, Commit", "validate": 6},
